@@ -419,7 +419,7 @@ pub fn check(thorough: bool, _seed: u64) -> Check {
         id: "C01",
         rule: "choice tree: (form, argument) unit x one coefficient per lane; each leaf is one (form, coefficient vector, argument) evaluated by the real evaluate; non-trivial = >=2 non-zero coefficients and argument not in {0,1}; coefficient and argument alphabets are duplicate-free so distinct leaves are distinct inputs".into(),
         assumptions: vec!["f64::ln (glibc) within 1 ulp".into(), "partial terms of the alphabets neither overflow nor underflow".into()],
-        phases: vec![exact_phase(thorough), rich_phase(thorough), log_phase(thorough), extreme_phase(thorough), near_root_phase(thorough)],
+        phases: vec![exact_phase(thorough), rich_phase(thorough), log_phase(thorough), extreme_phase(thorough), near_root_phase(thorough), concrete_call_phase()],
         extra: Default::default(),
         controls: vec![("oracle rejects a value that is off by more than the bound", Box::new(|| {
             let c: [f64; 3] = [1.0, -1.0, 0.1];
@@ -432,5 +432,60 @@ pub fn check(thorough: bool, _seed: u64) -> Check {
             if dy(good * (1.0 + 1e-13)).sub(&s).abs().le(&b) { return Err("bad value accepted".into()); }
             Ok(())
         }))],
+    }
+}
+
+
+/// `f.evaluate(x)` written in method-call syntax on every concrete form type must be the trait's `Evaluate::evaluate` (inside
+/// generic code the call always resolves to the trait; on a concrete type an inherent method of the same name would win)
+fn concrete_call_phase() -> Phase {
+    type Run = Box<dyn Fn(&[f64], f64) -> (f64, f64) + Send + Sync>;
+    let mut cases: Vec<(String, usize, Run)> = vec![];
+    macro_rules! form { ($($t:ty),*) => {$(
+        cases.push((type_name::<$t>(), <$t as Nums>::N, Box::new(|c: &[f64], x: f64| {
+            let f: $t = <$t as Nums>::from_nums(c);
+            #[allow(unstable_name_collisions)]
+            let m = f.evaluate(x);
+            (m, <$t as Evaluate>::evaluate(&f, x))
+        })));
+    )*}; }
+    form!(Poly0, Poly1, Poly2, Poly3, Poly4, Poly5, Poly6, Poly7, Poly8, Log<Poly0>, Log<Poly1>, Log<Poly2>, Log<Poly3>, Log<Poly4>, Log<Poly5>, Log<Poly6>, Log<Poly7>, Log<Poly8>,
+          IntOfLog<Poly0>, IntOfLog<Poly1>, IntOfLog<Poly2>, IntOfLog<Poly3>, IntOfLog<Poly4>, IntOfLog<Poly5>, IntOfLog<Poly6>, IntOfLog<Poly7>, IntOfLog<Poly8>, IntOfLogPoly4,
+          Segment<Poly3>, Segment<Log<Poly1>>);
+    for len in [0usize, 1, 4, 9, 12] {
+        cases.push((format!("PolyN(len {len})"), len, Box::new(|c: &[f64], x: f64| {
+            let f = PolyN(c.to_vec());
+            #[allow(unstable_name_collisions)]
+            let m = f.evaluate(x);
+            (m, <PolyN as Evaluate>::evaluate(&f, x))
+        })));
+    }
+    let n = cases.len();
+    let cases = Arc::new(cases);
+    Phase {
+        name: "method-call-syntax-on-concrete-types",
+        units: n,
+        split: 0,
+        body: Box::new(move |unit, cx| {
+            let (name, k, run) = &cases[unit];
+            let x = [0.0, 1.0, 0.5, -2.5, 7.0, 1e-3, 3.0, 256.0][cx.choose(8)];
+            let c: Vec<f64> = match cx.choose(3) {
+                0 => (0..*k).map(|i| [1.5, -2.25, 3.125, -4.0625, 5.5, -6.75, 7.875, -8.9375, 9.96875, 0.5, -0.25, 2.0, 1.0][i % 13]).collect(),
+                1 => (0..*k).map(|i| if i % 2 == 0 { 1.0 } else { 0.0 }).collect(),
+                _ => (0..*k).map(|i| if i + 1 == *k { 3.0 } else { 0.0 }).collect(),
+            };
+            cx.nontrivial();
+            cx.evals(2);
+            if cx.sampling() {
+                cx.sample(json!({"type": name, "numbers": c, "x": x}));
+            }
+            match guard(|| run(&c, x)) {
+                Err(p) => Err(Fail::new(format!("{name}: evaluate panicked: {p}"), json!({"numbers": fjs(&c), "x": fj(x)}))),
+                Ok((m, t)) if m.to_bits() != t.to_bits() && !(m.is_nan() && t.is_nan()) => Err(Fail::new(format!("{name}: f.evaluate(x) on the concrete type differs from Evaluate::evaluate(&f, x)"), json!({"numbers": fjs(&c), "x": fj(x), "method_call": fj(m), "trait_call": fj(t)}))),
+                Ok(_) => Ok(()),
+            }
+        }),
+        classes: vec![],
+        bounds: json!({"types": "Poly0..Poly8, Log<..>, IntOfLog<..> of each, IntOfLogPoly4, Segment<Poly3>, Segment<Log<Poly1>>, PolyN of 5 lengths", "arguments": "{0,1,0.5,-2.5,7,1e-3,3,256}", "numbers": "3 vectors per type"}),
     }
 }
